@@ -2,7 +2,8 @@
 representative per character class the sanitising regexes distinguish,
    sanitize_date(w(s)) == sanitize_date(s)          for every white-space rewriting w of the family,
    ascii(sanitize_date(native(s))) == sanitize_date(s)   for a non-ASCII digit script,
-where w in {pad, double every space, tab, newline, NBSP, mixed run, trailing colon}."""
+where w in {pad, one-sided padding, double every space, tab, newline, NBSP, mixed run, trailing colon,
+trailing colon followed by white space}."""
 import itertools
 
 from standins.common import args, emit, pmap
@@ -22,6 +23,12 @@ REWRITES = {
     "nbsp-nbsp": lambda s: s.replace(" ", "\xa0\xa0"),
     "nbsp-tab": lambda s: s.replace(" ", "\xa0\t"),
     "colon": lambda s: s + ":",
+    "lead": lambda s: " \t" + s,
+    "trail": lambda s: s + "  ",
+    "trail-newline": lambda s: s + "\n",
+    "colon-trail": lambda s: s + ": ",
+    "lead-colon": lambda s: " " + s + ":",
+    "colon-space-colon": lambda s: s + ": :",
 }
 
 
